@@ -75,6 +75,8 @@ type Frame struct {
 	unsupp         []string
 	inFrom         map[*State]*ssa.BasicBlock
 	deadVals       map[*ssa.Alloc]Val
+	curCall        ssa.CallInstruction // the call instruction being executed (for per-site callsite clauses)
+	callOrd        map[ssa.CallInstruction]int
 	lastFrameParts map[string]string
 	allowedMemo    map[string][]string
 	allowAllMemo   map[string]bool
@@ -1041,7 +1043,9 @@ func (fr *Frame) exec(st *State, instr ssa.Instruction) bool {
 	case *ssa.Phi:
 		// evaluated at block entry
 	case *ssa.Call:
+		fr.curCall = x
 		res := fr.execCall(st, x.Common(), x)
+		fr.curCall = nil
 		if st.path == "false" {
 			return false
 		}
